@@ -389,6 +389,12 @@ func (ps *parser) unary() Expr {
 		ps.next()
 		return &EUnary{"deref", ps.unary()}
 	}
+	if t.kind == tOp && t.s == "&" {
+		// &name: the address of a captured or address-taken local variable (bound by the translator)
+		ps.next()
+		n := ps.next()
+		return &EIdent{Name: "&" + n.s}
+	}
 	return ps.postfix(ps.primary())
 }
 
